@@ -231,6 +231,7 @@ type argValidator struct {
 	args       map[string]graphql.Type
 	strictHits *int64
 	mu         *sync.Mutex
+	strictErr  bool // spec-strict: unknown keys are errors (used for the generator's self-check against the merged schema)
 }
 
 func (v *argValidator) parse(raw interface{}) (interface{}, error) {
@@ -248,8 +249,14 @@ func (v *argValidator) parse(raw interface{}) (interface{}, error) {
 		}
 		return nil, nil
 	}
+	if v.strictErr && len(v.args) == 0 && len(m) != 0 {
+		return nil, fmt.Errorf("unexpected args")
+	}
 	for k := range m {
 		if _, ok := v.args[k]; !ok {
+			if v.strictErr {
+				return nil, fmt.Errorf("unknown argument %s", k)
+			}
 			v.strict()
 		}
 	}
@@ -313,6 +320,9 @@ func (v *argValidator) check(val interface{}, t graphql.Type) error {
 		}
 		for k := range m {
 			if _, ok := t.InputFields[k]; !ok {
+				if v.strictErr {
+					return fmt.Errorf("unknown input field %s", k)
+				}
 				v.strict()
 			}
 		}
@@ -340,6 +350,10 @@ func (v *argValidator) check(val interface{}, t graphql.Type) error {
 // installValidators fills ParseArguments of every field reachable from the
 // schema's roots.
 func installValidators(s *graphql.Schema, strictHits *int64, mu *sync.Mutex) error {
+	return installValidatorsMode(s, strictHits, mu, false)
+}
+
+func installValidatorsMode(s *graphql.Schema, strictHits *int64, mu *sync.Mutex, strictErr bool) error {
 	types := map[graphql.Type]string{}
 	if s.Query != nil {
 		if err := federation.CollectTypes(s.Query, types); err != nil {
@@ -354,7 +368,7 @@ func installValidators(s *graphql.Schema, strictHits *int64, mu *sync.Mutex) err
 	for t := range types {
 		if o, ok := t.(*graphql.Object); ok {
 			for _, f := range o.Fields {
-				av := &argValidator{args: f.Args, strictHits: strictHits, mu: mu}
+				av := &argValidator{args: f.Args, strictHits: strictHits, mu: mu, strictErr: strictErr}
 				f.ParseArguments = av.parse
 			}
 		}
